@@ -118,11 +118,11 @@ func (g *G) ViewsEvent(p *board.Position, turn board.Color, np, fm int) {
 		"op": "views", "pos": proj.Position(p, turn), "np": np, "fm": fm,
 		"pieces": pieces, "colors": colors, "all": proj.Squares(p.All()), "empty": empty,
 		"att": att, "def": def,
-		"chk":  []int{proj.B2I(p.IsChecked(board.White)), proj.B2I(p.IsChecked(board.Black))},
-		"mate": proj.B2I(p.IsCheckMate(turn)),
-		"ksq":  []int{kingSq(p, board.White), kingSq(p, board.Black)},
+		"chk":   []int{proj.B2I(p.IsChecked(board.White)), proj.B2I(p.IsChecked(board.Black))},
+		"mate":  proj.B2I(p.IsCheckMate(turn)),
+		"ksq":   []int{kingSq(p, board.White), kingSq(p, board.Black)},
 		"insuf": proj.B2I(p.HasInsufficientMaterial()),
-		"fen":  str,
+		"fen":   str,
 	}
 	dp, dt, dnp, dfm, err := fen.Decode(str)
 	if err != nil || dp == nil {
@@ -221,7 +221,7 @@ func (pr *Prog) Rec(l *Live) M {
 		"hash": proj.Hex(b.Hash()), "scratch": proj.Hex(pr.zt.Hash(b.Position(), b.Turn())),
 		"np": b.NoProgress(), "ply": b.Ply(), "fm": b.FullMoves(),
 		"castled": []int{proj.B2I(b.HasCastled(board.White)), proj.B2I(b.HasCastled(board.Black))},
-		"last": last, "last2": last2,
+		"last":    last, "last2": last2,
 		"moved1": proj.Squares(b.HasMoved(1)), "moved2": proj.Squares(b.HasMoved(2)), "movedAll": proj.Squares(b.HasMoved(100000)),
 		"out": int(b.Result().Outcome), "reason": string(b.Result().Reason), "reps": reps,
 		"fen": fen.Encode(b.Position(), b.Turn(), b.NoProgress(), b.FullMoves()),
